@@ -334,3 +334,100 @@ func min64(a, b uint64) uint64 {
 	}
 	return b
 }
+
+// genE2ECase: a client program against real NodeHosts.
+func genE2ECase(r *vh.Rand, i int) string {
+	n := 1
+	if r.Chance(1, 2) {
+		n = 3
+	}
+	cap := 2 + r.Intn(3)
+	kind := "reg"
+	if r.Chance(1, 2) {
+		kind = "conc"
+	}
+	comp := r.Intn(2)
+	type cl struct {
+		name             string
+		open, inflight   bool
+		cmd              string
+		completedAtLeast int
+	}
+	var cls []*cl
+	var ops []string
+	emit := func(s string) { ops = append(ops, s) }
+	host := func() int { return r.Intn(n) }
+	newCmd := func() string { return vh.Hex(cmdFor(r)) }
+	nops := 25 + r.Intn(25)
+	restarts := 0
+	for len(ops) < nops {
+		x := r.Intn(100)
+		var c *cl
+		if len(cls) > 0 {
+			c = cls[r.Intn(len(cls))]
+		}
+		switch {
+		case x < 14 || c == nil:
+			// more sessions than the LRU holds: the oldest ones get evicted
+			c = &cl{name: fmt.Sprintf("s%d", len(cls)), open: true}
+			cls = append(cls, c)
+			emit("REG " + c.name)
+		case x < 50:
+			if !c.open {
+				continue
+			}
+			if !c.inflight {
+				c.cmd, c.inflight = newCmd(), true
+			}
+			emit(fmt.Sprintf("P %s %s", c.name, c.cmd)) // a new proposal or a retry of the one in flight
+		case x < 66:
+			if !c.open || !c.inflight {
+				continue
+			}
+			emit("DONE " + c.name)
+			c.inflight = false
+			c.completedAtLeast++
+			if r.Chance(2, 3) {
+				c.cmd, c.inflight = newCmd(), true
+				emit(fmt.Sprintf("P %s %s", c.name, c.cmd))
+			}
+		case x < 71:
+			if c.open && c.completedAtLeast > 0 {
+				emit(fmt.Sprintf("STALE %s %s", c.name, newCmd()))
+			}
+		case x < 75:
+			if c.open {
+				emit("CLOSE " + c.name)
+				c.open = false
+			}
+		case x < 81:
+			emit("READ")
+		case x < 87:
+			emit(fmt.Sprintf("SNAPSHOT %d", host()))
+		case x < 92:
+			if restarts < 3 {
+				restarts++
+				emit(fmt.Sprintf("RESTARTHOST %d", host()))
+			}
+		case x < 96:
+			if n > 1 {
+				emit(fmt.Sprintf("XFER %d", host()))
+				emit(fmt.Sprintf("HOST %d", host()))
+			}
+		default:
+			if c.open && c.inflight && restarts < 4 {
+				restarts++
+				// the typical sequence: snapshot, restart, then the retry
+				h := host()
+				emit(fmt.Sprintf("SNAPSHOT %d", h))
+				emit(fmt.Sprintf("RESTARTHOST %d", h))
+				emit(fmt.Sprintf("P %s %s", c.name, c.cmd))
+			}
+		}
+	}
+	if i%1000 == 5 {
+		emit("GUARD")
+	}
+	emit("READ")
+	return fmt.Sprintf("e2e n=%d cap=%d kind=%s comp=%d | %s", n, cap, kind, comp, strings.Join(ops, " ; "))
+}
